@@ -269,6 +269,8 @@ def check(ctx: Ctx) -> None:
                         ob.violation(fi, c, "endmarker delivered outside _no_longer_opened / setcallback")
 
     check_closers_serialised(ctx, "C10.e")
+    from .C04 import check_close_all
+    check_close_all(ctx, "C10.h")
 
     with ctx.obligation("C10.f", "multichannel") as ob:
         fm = repo.func("multi.MultiChannel.make_receive_queue")
